@@ -23,6 +23,7 @@ def applyReplyTweaks (s : String) (m : Packet) : Res Packet :=
     | ["mid", n] => .ok { m with header := { m.header with mid := nat! n } }
     | ["tok", h] => m.setToken (bytesOfHex h)
     | ["typ", t] => .ok { m with header := m.header.setType (mtypeOf (nat! t)) }
+    | ["clr", n] => .ok (m.clearOption (optNum n))
     | _ => .ok m)) (.ok m)
 
 /-- tweaks of the request message: rmid= rtok= -/
@@ -82,6 +83,7 @@ def accReqOp (st : AccState) (op : String) : Res (AccState × Option String) :=
   | ["addraw", n, h] => .ok ({ st with req := { st.req with message := msg.addOption (optNum n) (parseVal h) } }, none)
   | ["clr", n] => .ok ({ st with req := { st.req with message := msg.clearOption (optNum n) } }, none)
   | ["path", h] => .ok ({ st with req := st.req.setPath (charsOfHex h) }, none)
+  | ["pathsame"] => .ok ({ st with req := st.req.setPath st.req.getPath }, none)
   | ["method", b] =>
       match MessageClass.ofU8 (nat! b) with
       | .Request m => .ok ({ st with req := st.req.setMethod m }, none)
